@@ -2,6 +2,9 @@ package names
 
 import (
 	"fmt"
+	"go/ast"
+	"go/parser"
+	"go/token"
 	"os"
 	"path/filepath"
 	"sort"
@@ -13,6 +16,7 @@ import (
 	"pgregory.net/rapid"
 
 	"verif/harness/internal/evid"
+	"verif/harness/internal/modelscan"
 	"verif/harness/internal/tlvwalk"
 )
 
@@ -201,6 +205,11 @@ func FuzzC14Parse(f *testing.F) {
 	for _, s := range fuzzSeeds {
 		f.Add(s)
 	}
+	for _, tok := range minedTokens() {
+		f.Add(tok)
+		f.Add(tok + "//a")
+		f.Add("/" + tok + "=a")
+	}
 	f.Fuzz(func(t *testing.T, s string) {
 		if _, err := checkParse(s); err != nil {
 			t.Fatal(err)
@@ -250,3 +259,92 @@ func TestC14FuzzCorpus(t *testing.T) {
 	rec.Count("saved-fuzzer-inputs", saved)
 	evid.Each(t, rec, cases, execParse)
 }
+
+// ---------------------------------------------------------------------------- tokens mined from the parser's own source
+
+// minedTokens: every short string and character literal of the non-test Go files of std/encoding in
+// the tree under test (the URI parser lives there). What a parser treats specially it has to spell
+// somewhere: convention names, separators, scheme prefixes. The list is recomputed from the tree at
+// every run (sorted, so the cases are a function of the tree), and a parser that learns a new keyword
+// brings its own test inputs with it.
+func minedTokens() []string {
+	dir := filepath.Join(modelscan.RepoDir(), "std", "encoding")
+	files, _ := filepath.Glob(filepath.Join(dir, "*.go"))
+	set := map[string]bool{}
+	for _, fn := range files {
+		if strings.HasSuffix(fn, "_test.go") {
+			continue
+		}
+		f, err := parser.ParseFile(token.NewFileSet(), fn, nil, 0)
+		if err != nil {
+			continue
+		}
+		ast.Inspect(f, func(n ast.Node) bool {
+			if imp, ok := n.(*ast.ImportSpec); ok && imp != nil {
+				return false
+			}
+			lit, ok := n.(*ast.BasicLit)
+			if !ok || (lit.Kind != token.STRING && lit.Kind != token.CHAR) {
+				return true
+			}
+			var s string
+			if lit.Kind == token.CHAR {
+				r, _, _, err := strconv.UnquoteChar(lit.Value[1:len(lit.Value)-1], '\'')
+				if err != nil {
+					return true
+				}
+				s = string(r)
+			} else {
+				u, err := strconv.Unquote(lit.Value)
+				if err != nil {
+					return true
+				}
+				s = u
+			}
+			if len(s) >= 1 && len(s) <= 16 && !strings.ContainsAny(s, " \n\t") {
+				set[s] = true
+			}
+			return true
+		})
+	}
+	out := make([]string, 0, len(set))
+	for s := range set {
+		out = append(out, s)
+	}
+	sort.Strings(out)
+	return out
+}
+
+var minedFrames = []string{
+	"%s", "/%s", "%s/", "/%s/", "%s//", "%s//a", "%s//a/b", "%s/a", "/a/%s", "/a/%s/b", "%sa", "a%s", "%s=", "%s=a", "=%s", "a=%s", "/%s=a", "/%s=1",
+	"/%s=%%00", "%s%s", "/%s%s", "%s:", "%s://", "%s://a", "%s:/a", "%s:a", "<%s>", "/<%s>", "<%s=x>", "%s%%", "%%%s", "/%s/..", "%s=/", "8=%s", "/8=%s/%s",
+}
+
+const ruleMined = "every short string/character literal of the parser's own source files (std/encoding/*.go of the tree under test, mined at run time) - also upper-cased and capitalised - in 35 frames (alone, between slashes, before '//', '://', '=', inside pattern brackets, doubled, ...): same oracle as TestC14Parse (no parser panics, accepted names survive String()->parse). Non-trivial: the string contains '=', '%' or '/'"
+
+func TestC14ParseMined(t *testing.T) {
+	rec := evid.New("C14", "TestC14ParseMined", ruleMined)
+	toks := minedTokens()
+	rec.Count("mined-tokens", len(toks))
+	var cases []ParseCase
+	seen := map[string]bool{}
+	for _, tok := range toks {
+		for _, v := range []string{tok, strings.ToUpper(tok), strings.ToUpper(tok[:1]) + tok[1:]} {
+			for _, fr := range minedFrames {
+				s := strings.ReplaceAll(strings.ReplaceAll(fr, "%s", v), "%%", "%")
+				if !seen[s] {
+					seen[s] = true
+					cases = append(cases, ParseCase{S: s})
+				}
+			}
+		}
+	}
+	if len(toks) < 10 {
+		// not a verdict about the code: the driver reports exit status 3 without a failing case as inconclusive
+		fmt.Printf("INCONCLUSIVE-HARNESS: only %d literals mined from %s\n", len(toks), modelscan.RepoDir())
+		os.Exit(3)
+	}
+	evid.Each(t, rec, cases, execParse)
+}
+
+func TestC14ParseMinedReplay(t *testing.T) { evid.Replay(t, "TestC14ParseMined", execParse) }
